@@ -179,7 +179,15 @@ def gen_plan(seed, cfg):
             ops.append({"op": "alias_struct", "dst": dst, "src": src})
             names[dst] = ("struct",) + names[src][1:]
         elif kind == "read" and names:
-            ops.append({"op": "read", "src": rng.choice(sorted(names))})
+            r_it = rng.random()
+            if r_it < 0.2 and tensors():
+                # a read in flight: an items() iterator opened now and advanced by later operations
+                ops.append({"op": "iter_open", "slot": rng.randrange(2), "src": rng.choice(tensors()),
+                            "take": rng.choice([0, 1, 2])})
+            elif r_it < 0.45:
+                ops.append({"op": "iter_next", "slot": rng.randrange(2), "take": rng.choice([1, 2, 100])})
+            else:
+                ops.append({"op": "read", "src": rng.choice(sorted(names))})
         elif kind == "pickle" and tensors():
             src = rng.choice(tensors())
             ops.append({"op": "pickle", "dst": dst, "src": src})
@@ -406,12 +414,20 @@ class Run:
         self.threaded = plan.get("threads", 1) > 1
         self.inflight = {}  # thread -> logical ids the operation in flight holds references to
         self.sched = None
+        # open items() iterators: slot -> [iterator, expected remaining items, logical id].  The tensor
+        # behind an open iterator is neither "must be live" (an implementation may copy first) nor
+        # "must be freed" (the iterator may pin it, as today's generator does): only the VALUES the
+        # iterator goes on to yield are judged.
+        self.iters = {}
 
     def reachable(self):
         r = self.model.reachable()
         for lids in self.inflight.values():
             r |= lids
         return r
+
+    def maybe_pinned(self):
+        return {e[2] for e in self.iters.values()}
 
     def viol(self, props, oracle, at, *detail):
         self.violations.append({"properties": list(props), "oracle": oracle, "phase": at,
@@ -518,8 +534,9 @@ class Run:
         # a block that a reachable tensor points to as well (an operation that returned its argument,
         # or a second wrapper around the same arrays, would be legal) is not dead
         shared = {bid for lid in reach for _, bid in m.logical[lid]["blocks"]}
+        pinned = self.maybe_pinned()
         for lid, lg in m.logical.items():
-            if lid in reach or lg.get("checked_dead"):
+            if lid in reach or lg.get("checked_dead") or lid in pinned:
                 continue
             for role, bid in lg["blocks"]:
                 b = heap.by_id.get(bid) if bid is not None else None
@@ -803,6 +820,56 @@ class Run:
                     outcome = "read:" + hashlib.blake2b(repr((levels, vals)).encode(), digest_size=4).hexdigest()
                     del c
                 del ent
+            elif kind == "iter_open":
+                t = tensor_of(o["src"])
+                if t is None or not hasattr(t, "items"):
+                    outcome = "stale_source"
+                else:
+                    try:
+                        expected = list(t.items())
+                        it = iter(t.items())
+                        got = [next(it) for _ in range(min(o["take"], len(expected)))]
+                    except Exception as e:
+                        outcome = "raised:" + type(e).__name__  # reading a live result: C02's business
+                        if m.logical[held[o["src"]][1]]["blocks"]:
+                            self.viol(("C02",), "kernel_output_not_readable", at, type(e).__name__, str(e)[:200])
+                        del e
+                    else:
+                        if got != expected[:len(got)]:
+                            self.viol(("C02",), "items_not_reproducible", at)
+                        self.iters[(tid, o["slot"])] = [it, expected[len(got):], held[o["src"]][1]]
+                        if m.logical[held[o["src"]][1]]["blocks"]:
+                            self.probe("iterator_opened_on_kernel_output")
+                        del it
+                del t
+            elif kind == "iter_next":
+                ent = self.iters.get((tid, o["slot"]))
+                if ent is None:
+                    outcome = "no_iterator"
+                else:
+                    it, expected, lid_it = ent
+                    unreachable = lid_it not in self.reachable()
+                    got = []
+                    err = None
+                    try:
+                        for _ in range(o["take"]):
+                            got.append(next(it))
+                    except StopIteration:
+                        pass
+                    except Exception as e:
+                        err = type(e).__name__
+                        del e
+                    if err is not None or got != expected[:len(got)] or (o["take"] > len(expected) and len(got) != len(expected)):
+                        # an iterator handed out by a result goes on reading that result's storage: it
+                        # must keep yielding the stored entries whatever was deleted or collected since
+                        self.viol(("C13",), "read_in_flight_saw_released_or_changed_storage", at,
+                                  err, [list(map(repr, got[:3]))], [list(map(repr, expected[:3]))])
+                    if unreachable and m.logical[lid_it]["blocks"]:
+                        self.probe("iterator_advanced_after_last_name_of_kernel_output_was_deleted")
+                    ent[1] = expected[len(got):]
+                    if o["take"] > len(got) or not ent[1]:
+                        del self.iters[(tid, o["slot"])]
+                    del it, ent
             elif kind == "pickle":
                 t = tensor_of(o["src"])
                 if t is None:
@@ -977,7 +1044,8 @@ class Run:
                     self.step(i, o)
             if self.inconclusive:
                 return self
-            # bounded liveness: drop every name, collect, nothing may remain
+            # bounded liveness: close every iterator, drop every name, collect, nothing may remain
+            self.iters.clear()
             self.model.names.clear()
             gc.collect()
             heap.drain()
@@ -995,7 +1063,7 @@ class Run:
 
 
 SEQ_ALPHABET = ["alias", "alias_struct", "read", "read_struct", "pickle", "feed", "again",
-                "del0", "del1", "del2", "gc"]
+                "del0", "del1", "del2", "gc", "iter_open", "iter_next"]
 
 
 def _seq_pairs():
@@ -1045,6 +1113,10 @@ def _seq_ops(sw, word):
             ops.append({"op": "del", "name": "n" + w[-1]})
         elif w == "gc":
             ops.append({"op": "gc"})
+        elif w == "iter_open":
+            ops.append({"op": "iter_open", "slot": 0, "src": "n0", "take": 1})
+        elif w == "iter_next":
+            ops.append({"op": "iter_next", "slot": 0, "take": 100})
     return ops
 
 
